@@ -370,8 +370,8 @@ def run(ctx):
     depth = 4 if ctx.quick else 5
     for fl in ("bzr", "git"):
         for w in ("WitnessRenameReported", "WitnessRejected", "WitnessKindChange"):
-            if fl == "git" and w == "WitnessRenameReported":
-                continue
+            if fl == "git" and w != "WitnessRejected":
+                continue          # git has no identities (no rename records) and an index entry never turns directory
             tlc.check(ctx, "WorkingTree", cfg_text=cfg(fl, SMALL, ["empty", "pop"], 3, invariants=(w,), props=()),
                       expect_violation=w, label="witness %s %s" % (w, fl), workers=4)
     jobs = []
